@@ -51,6 +51,96 @@ def guard_constants(P, fn):
     return sorted(out, key=str)
 
 
+def _norm_value(c):
+    """canonical value with block numbers and the `_borrowed` suffix of sub-parsers removed, so that twins can be compared"""
+    if isinstance(c, tuple):
+        if c and c[0] == 'call' and len(c) >= 3:
+            return ('call', str(c[1]).replace('_borrowed', ''))
+        return tuple(_norm_value(x) for x in c)
+    if isinstance(c, list):
+        return [_norm_value(x) for x in c]
+    return c
+
+
+def _eval_value(c, x):
+    """value of a canonical expression over one free variable (every non-constant leaf) at x; raises on anything else"""
+    if isinstance(c, tuple) and c:
+        k = c[0]
+        if k == 'const':
+            if isinstance(c[1], bool) or not isinstance(c[1], int):
+                raise ValueError
+            return c[1]
+        if k in ('place', 'call', 'local', 'arg', 'payload'):
+            return x
+        if k == 'cast':
+            inner = [y for y in c[1:] if isinstance(y, tuple)]
+            return _eval_value(inner[-1], x)
+        if k == 'un':
+            v = _eval_value(c[2], x)
+            return {'Not': (not v) if isinstance(v, bool) else ~v, 'Neg': -v}[c[1]]
+        if k == 'bin':
+            a, b = _eval_value(c[2], x), _eval_value(c[3], x)
+            import operator as O
+            f = {'Eq': O.eq, 'Ne': O.ne, 'Lt': O.lt, 'Le': O.le, 'Gt': O.gt, 'Ge': O.ge, 'Add': O.add, 'Sub': O.sub, 'Mul': O.mul,
+                 'BitAnd': O.and_, 'BitOr': O.or_, 'BitXor': O.xor, 'Shl': O.lshift, 'Shr': O.rshift}[c[1]]
+            return f(a, b)
+    raise ValueError
+
+
+def _leaves(c, out):
+    if isinstance(c, tuple) and c:
+        if c[0] in ('place', 'call', 'local', 'arg', 'payload'):
+            out.add(str(c))
+            return
+        if c[0] == 'const':
+            out.add(('const', c[1]))
+            return
+        for y in c[1:]:
+            _leaves(y, out)
+
+
+def same_function(ca, cb):
+    """True / False when two canonical expressions over the same single variable can be compared at every breakpoint
+    (each constant and its neighbours, the ends of the unsigned ranges), None when they cannot be evaluated"""
+    la, lb = set(), set()
+    _leaves(ca, la)
+    _leaves(cb, lb)
+    va = {x for x in la if not isinstance(x, tuple)}
+    vb = {x for x in lb if not isinstance(x, tuple)}
+    if len(va) != 1 or va != vb:
+        return None
+    pts = {0, 1, 2, 127, 128, 255, 256, 65535, 65536, 2 ** 31 - 1, 2 ** 31, 2 ** 32 - 1}
+    for x in la | lb:
+        if isinstance(x, tuple) and isinstance(x[1], int) and not isinstance(x[1], bool):
+            pts |= {x[1] - 1, x[1], x[1] + 1}
+    try:
+        return all(_eval_value(ca, x) == _eval_value(cb, x) for x in sorted(pts) if x >= 0)
+    except (ValueError, KeyError, TypeError, IndexError):
+        return None
+
+
+def computed_values(P, fn):
+    """the values a parser computes (comparison / arithmetic on what it read) and stores in the term it builds:
+    arguments of erltf::types constructors and operands of term-variant aggregates whose canonical form contains an operator"""
+    from ..ranges import canon
+    out = []
+    for B in bodies_of_fn(P, fn):
+        ops = []
+        for bb, t in B.calls():
+            g = callee_of(t)[0] or ''
+            if g.startswith('erltf::types::') and g.endswith('::new'):
+                ops += [(g.rsplit('::', 2)[-2] + '::new', i, a) for i, a in enumerate(t['args'])]
+        for bb, j, st in B.stmts():
+            if st['k'] == '=' and st['rv']['k'] == 'agg' and st['rv'].get('adt') in (OWNED, BORROWED):
+                ops += [(str(st['rv'].get('var')), i, a) for i, a in enumerate(st['rv']['ops'])]
+        for where_, i, a in ops:
+            c = _norm_value(canon(B, a))
+            txt = str(c)
+            if "('bin'," in txt or "('un'," in txt:
+                out.append((where_, i, txt, c))
+    return sorted(out, key=lambda r: r[:3])
+
+
 def run(ctx):
     P = ctx.P
     spec = load_spec()
@@ -81,6 +171,7 @@ def run(ctx):
     # ---------------- clause 2: twins --------------------------------------------------------------
     ctx.rule('C13.2-twin-layout', 'for every common tag both parsers read the same layout', floor=22)
     ctx.rule('C13.2-twin-guards', 'for every common tag both parsers apply the same size caps and validity tests (same comparison operators and constants)', floor=22)
+    ctx.rule('C13.2-twin-values', 'for every common tag: wherever the parsers store a value they compute from the bytes (a sign from a sign byte, a number from digits) both compute it with the same expression', floor=15)
     ctx.rule('C13.2-twin-variant', 'for every common tag the zero-copy parser builds the variant that to_owned maps to the owned parser\'s variant', floor=20)
     for t in sorted(set(owned) & set(borrowed)):
         o, b = owned[t], borrowed[t]
@@ -105,6 +196,23 @@ def run(ctx):
                         key='TWIN:%s:guards' % b['parser'])
         else:
             ctx.ok('C13.2-twin-guards', inst, 'inline arm without guards')
+        if o['parser'] and b['parser']:
+            co, cb = computed_values(P, o['parser']), computed_values(P, b['parser'])
+            verdict = None
+            if [r[:3] for r in co] != [r[:3] for r in cb]:
+                # spelled differently: the same function of the byte read?  (x != 0 and x > 0 are, x != 0 and x == 1 are not)
+                verdict = False
+                if [r[:2] for r in co] == [r[:2] for r in cb]:
+                    res = [same_function(x[3], y[3]) for x, y in zip(co, cb) if x[2] != y[2]]
+                    verdict = True if all(r is True for r in res) else (False if any(r is False for r in res) else None)
+            co, cb = [r[:3] for r in co], [r[:3] for r in cb]
+            if co == cb or verdict is True:
+                ctx.ok('C13.2-twin-values', inst, '%d computed value(s) stored, %s' % (len(cb), 'identical expressions' if co == cb else 'expressions equal at every breakpoint of their constants'), where)
+            elif verdict is None:
+                ctx.undecided('C13.2-twin-values', inst, 'the parsers spell a stored value differently and the expressions could not be compared: owned %s, zero-copy %s' % ([x for x in co if x not in cb], [x for x in cb if x not in co]), where)
+            else:
+                ctx.bad('C13.2-twin-values', inst, 'the two parsers compute a stored value differently: owned %s, zero-copy %s' % ([x for x in co if x not in cb], [x for x in cb if x not in co]), where,
+                        key='TWIN:%s:values' % b['parser'])
         vo, vb = set(o['variants']), set(b['variants'])
         if vo == vb and vb:
             ctx.ok('C13.2-twin-variant', inst, 'both build %s' % sorted(vb), where)
@@ -233,6 +341,13 @@ def run(ctx):
     ctx.rule('C13.3-atom-interning', 'both decoders create atoms with Atom::new: its interning tables agree entry by entry', floor=1)
     from ..etf import check_atom_tables
     check_atom_tables(ctx, 'C13.3-atom-interning')
+
+    # the k-th value a parser reads lands in the field the encoder writes k-th
+    from ..fieldorder import check_field_order
+    ctx.rule('C13.2-field-order', 'for every structure built by a parser through its constructor (funs, exports, pids, ports, references): the constructor argument for field f derives from the wire read '
+             'at the position where the encoder writes f; constructor parameter->field map from the constructor body, read positions from the parser\'s data flow, write order from the encoder\'s success paths', floor=10)
+    n_fo = check_field_order(ctx, 'C13.2-field-order')
+    ctx.anchor(n_fo >= 10, 'parsers that build a structure through erltf::types::*::new with an encoder for it')
 
 
 def _offset_shape(B, c):
